@@ -1,6 +1,7 @@
 """Property -> functions under contract, trusted base, undecided clauses (DESIGN section 5)."""
 
 PROPS = {}
+NOT_APPLICABLE = {}
 
 PROPS["C17"] = {
     "functions": ["_utils.merge_config"],
@@ -13,6 +14,12 @@ PROPS["C17"] = {
         "pre-existing dict is unchanged (inputs-unmodified), so `Merged` facts stay true after they are established",
     ],
     "undecided": ["termination on cyclic dictionaries"],
+    "level_text": "Proof: every clause of the statement is a postcondition of the real merge_config body, discharged for all "
+                  "inputs (any keys, any depth via the recursive call's own contract), all loop iteration counts; a native "
+                  "bounded differential harness supplies replayable counterexamples and guards against vacuity.",
+    "level_note": "Trusted: pyvc's encoding of Python dict semantics (DESIGN 2.4), z3/cvc5. Deep correctness is induction on depth "
+                  "over the one-level contract (history predicate Merged + sealed results + unchanged inputs). Termination not proved.",
+    "design_ref": "DESIGN.md section 5 (C17)",
     "explanation": "C17 is the postcondition of merge_config; every clause of the statement is an `ensures` clause proved "
                    "for all inputs on every path of the real body, with a loop invariant over the processed-key set.",
 }
